@@ -250,11 +250,17 @@ type W struct {
 	B      []byte
 	Errs   []int16 // error codes to place, consumed in order by Err(); 0 when exhausted
 	ErrPos []int   // byte offsets (within B) of the error-code fields written so far
+	CntPos []int   // byte offsets of the int32 array-count fields written so far
 }
 
 func (w *W) I8(v int8)   { w.B = append(w.B, byte(v)) }
 func (w *W) I16(v int16) { w.B = append(w.B, byte(v>>8), byte(v)) }
 func (w *W) I32(v int32) { w.B = append(w.B, byte(v>>24), byte(v>>16), byte(v>>8), byte(v)) }
+// Cnt writes an int32 array count and records where.
+func (w *W) Cnt(v int32) {
+	w.CntPos = append(w.CntPos, len(w.B))
+	w.I32(v)
+}
 func (w *W) I64(v int64) {
 	w.I32(int32(v >> 32))
 	w.I32(int32(v))
